@@ -9,6 +9,7 @@ CONSTANTS
   MaxLen = 100
   ListLens = {1}
   WithJP = TRUE
+  WithBroken = FALSE
   TraceFile = "composer_trace.ndjson"
 SPECIFICATION TraceSpec
 CONSTRAINT HighWater
